@@ -755,7 +755,27 @@ def run_history(rnd, steps, t, p_loop=0.0):
         if m["t"] in LINK_MUTS and on_cycle(pre, m["x"]):
             break               # known finding F8: from here on the code is off-specification
         if NOVAL in post["kids"][0] or post["child"][0] == NOVAL:
-            break               # the root's observed properties require `value` there: inapplicable from here on
+            # the root's observed properties require `value` there: inapplicable from here on.  The mutation raised from
+            # inside the framework - AFTER the link had changed: the properties are read once more (C12: no read
+            # returns a value cached before the last relevant change, whatever became of the mutation's own outcome)
+            for p in ("csnap", "cfirst", "chv"):
+                s += 1
+                rexc = ""
+                hp = pool.heap()
+                pool.clear_logs()
+                try:
+                    ret, runs = pool.read_prop(p)
+                except Exception as ex:
+                    ret, runs, rexc = [], 0, type(ex).__name__
+                start = pool.last_read.get(p)
+                since = [{"pre": a, "m": b} for a, b in (pool.muts[start:] if start is not None else [])]
+                pool.last_read[p] = len(pool.muts)
+                rl = pool.regs_list()
+                out.append({"tid": t, "step": s, "m": {"t": "read", "h": 0, "e": p, "op": "", "x": 1, "a": [0, 0, 0], "xs": [], "ps": []},
+                            "exc": rexc, "pre": hp, "post": pool.heap(), "regs": rl, "regs2": rl, "calls": pool.calls(), "probe": [],
+                            "xprobe": [], "census0": pool.census0, "census1": census2, "census2": census2, "paths": [], "alive": 0,
+                            "dropped": len(pool.dropped), "ret": ret, "runs": runs, "since": since, "first": 1 if start is None else 0})
+            break
         if exc and m["t"] not in ("observe", "unobserve") and exc not in ("IndexError", "ValueError_list", "KeyError"):
             if exc == "ValueError" and m["t"] == "kids" and m["op"] in ("remove", "setslice", "delslice"):
                 # may be the list's own ValueError; the judge decides; but hooks may be partial: stop
@@ -913,7 +933,7 @@ def case_fn(st, rep):
     return {"fail": None, "lines": recs, "sample": recs[0]}
 
 
-PROP_CLAUSES = {"C08": ("C08-", "F8"), "C09": ("C09-",), "C12": ("C12-", "F8"), "C16": ("C16-",)}
+PROP_CLAUSES = {"C08": ("C08-", "F8"), "C09": ("C09-",), "C12": ("C12-", "F8", "KF32"), "C16": ("C16-",)}
 
 
 def sig_of_factory(pid):
@@ -923,6 +943,8 @@ def sig_of_factory(pid):
         mine = [c for c in cl if c.startswith(prefixes)]
         if not mine:
             return None
+        if mine == ["KF32"]:
+            return "C12:F32:cached-property-stale-after-another-observers-maintainer-raised"
         if mine == ["F8"]:
             return "%s:F8:link-of-object-on-a-cycle-mutated" % pid
         what = rec["m"]["t"] + ("." + rec["m"]["op"] if rec["m"].get("op") else "")
